@@ -21,7 +21,9 @@ use std::str::FromStr;
 
 type Pred = (String, usize);
 
-fn inner() -> Vec<Val> { vec![Val::Int(0), Val::Int(1)] }
+thread_local! { static WITH_SYMBOL: std::cell::Cell<bool> = const { std::cell::Cell::new(false) }; }
+/// the values the ground atoms range over: {0, 1}, and the symbol a for tasks whose placeholders can be symbols
+fn inner() -> Vec<Val> { if WITH_SYMBOL.with(|w| w.get()) { vec![Val::Int(0), Val::Int(1), Val::Sym("a".into())] } else { vec![Val::Int(0), Val::Int(1)] } }
 
 fn atoms_of(preds: &BTreeSet<Pred>) -> Vec<GroundAtom> {
     let mut out = Vec::new();
@@ -66,6 +68,13 @@ const UG0S: &str = "input: q/0. input: s/0. output: p/0. assumption: q or s.";
 const UG1: &str = "input: q/1. output: p/1.";
 const UG1A: &str = "input: q/1. output: p/1. assumption: forall X (q(X) -> X = 0 or X = 1).";
 
+const UGN: &str = "input: q/1. input: n -> integer. output: p/1.";
+const UGC: &str = "input: q/1. input: c -> symbol. input: d -> general. output: p/1. assumption: c != d.";
+const PN: &[&str] = &["p(X) :- q(X), X != n.", "p(X) :- q(X), not t(X). t(n).", "p(X) :- q(X), X < n.", "p(X) :- q(X), X <= n, X != n.", "p(n) :- q(n).", "p(X) :- q(X), X > n - 1."];
+const PC: &[&str] = &["p(X) :- q(X), X != c.", "p(X) :- q(X), X != c, X != d.", "p(X) :- q(X), not t(X). t(c).", "p(X) :- q(X). :- q(c), q(d), c = d.", "p(X) :- q(X), X < c."];
+const SN: &[&str] = &["spec: forall X (p(X) <-> q(X) and X != n).", "spec: forall X (p(X) -> q(X) and X < n). spec(backward): forall X (p(X) -> X != n).", "assumption: n > 0. spec: forall X (p(X) <-> q(X) and X < n)."];
+const SD: &[&str] = &["assumption(forward): q. spec: p <-> q.", "assumption(forward): q. spec: p.", "assumption: q. spec(backward): p. spec(forward): p or not p.", "assumption(forward): not q. spec: p <-> q. spec(backward): p -> q."];
+
 const P0: &[&str] = &[
     "p :- q.", "p :- not not q.", "p :- q, not t. t :- not q.", "p :- t. t :- q.", "p :- not t. t :- not q.", "{p} :- q.", "p :- q. :- not q.", "p.", "p :- t.", "p :- not t.", "t. p :- t, q.",
     "p :- q. :- p, not q.", "p :- q, t. t.", "p :- q. t :- p.", "p :- q, not t.", "p :- t. t :- u. u :- q.", "{p}. :- p, not q. :- q, not p.", "p :- q, not not p.", "p :- not not p, q.",
@@ -103,7 +112,7 @@ pub fn cases(deep: bool) -> Vec<(Case, Vec<&'static [&'static str]>)> {
     let mut out = Vec::new();
     let mut k = 0usize;
     let mut flags_for = |k: usize| -> Vec<&'static [&'static str]> { if deep { FLAGS.to_vec() } else { vec![FLAGS[0], FLAGS[1 + k % (FLAGS.len() - 1)], FLAGS[1 + (k / 2 + 3) % (FLAGS.len() - 1)]] } };
-    for (group, ug) in [(P0, UG0), (P0S, UG0S), (P1, UG1), (P1, UG1A)] {
+    for (group, ug) in [(P0, UG0), (P0S, UG0S), (P1, UG1), (P1, UG1A), (PN, UGN), (PC, UGC)] {
         let n = group.len();
         for i in 0..n {
             let js: Vec<usize> = if deep { (0..n).collect() } else { vec![(i + 1) % n, (i + 4) % n, (i + 9) % n] };
@@ -111,7 +120,7 @@ pub fn cases(deep: bool) -> Vec<(Case, Vec<&'static [&'static str]>)> {
         }
     }
     for (l, r, ug) in SPECIAL_PAIRS { k += 1; out.push((Case { left: Some(l), program: r, spec: None, ug, outline: None }, if deep { FLAGS.to_vec() } else { vec![FLAGS[0], FLAGS[1], FLAGS[2 + k % 3]] })); }
-    for (specs, progs, ug) in [(S0, P0, UG0), (S1, P1, UG1)] {
+    for (specs, progs, ug) in [(S0, P0, UG0), (S1, P1, UG1), (SN, PN, UGN), (SD, P0, UG0)] {
         for (si, s) in specs.iter().enumerate() {
             let n = progs.len();
             let js: Vec<usize> = if deep { (0..n).collect() } else { vec![si % n, (si * 3 + 1) % n, (si * 5 + 2) % n] };
@@ -153,6 +162,7 @@ pub fn check_case(c: &Case, flag_sets: &[&[&str]], st: &mut VStats, fails: &mut 
     let inputs: BTreeSet<Pred> = ug.input_predicates().into_iter().map(|p| (p.symbol, p.arity)).collect();
     let outputs: BTreeSet<Pred> = ug.output_predicates().into_iter().map(|p| (p.symbol, p.arity)).collect();
     let public: BTreeSet<Pred> = inputs.union(&outputs).cloned().collect();
+    WITH_SYMBOL.with(|w| w.set(ug.placeholders().iter().any(|c| c.sort != fol::Sort::Integer)));
     let dom = Domain::new(-2, 3, &["a"]);
     let values = vec![Val::Int(0), Val::Int(1), Val::Int(2), Val::Sym("a".into())];
     st.pairs += 1;
@@ -228,20 +238,43 @@ pub fn check_case(c: &Case, flag_sets: &[&[&str]], st: &mut VStats, fails: &mut 
         let atoms = atoms_of(&names);
         if atoms.len() > 14 { bad("too many ground atoms for exhaustive enumeration", fails); return; }
         let interps = subsets(&atoms);
+        // placeholders are inputs: every assignment of values to them is one more family of interpretations
+        let placeholders: Vec<(String, fol::Sort)> = ug.placeholders().into_iter().map(|c| (c.name, c.sort)).collect();
+        let mut assignments: Vec<Vec<Val>> = vec![vec![]];
+        for (_, sort) in &placeholders {
+            let vals: Vec<Val> = match sort { fol::Sort::Integer => vec![Val::Int(0), Val::Int(1)], fol::Sort::Symbol => vec![Val::Sym("a".into())], fol::Sort::General => vec![Val::Int(0), Val::Sym("a".into())] };
+            assignments = assignments.into_iter().flat_map(|pre| vals.iter().map(move |v| { let mut p = pre.clone(); p.push(v.clone()); p })).collect();
+        }
+        let mut flag_fw: Vec<bool> = Vec::new();
+        let mut flag_bw: Vec<bool> = Vec::new();
+        let mut complaints_all: Vec<String> = Vec::new();
+        for pv in &assignments {
+        // the TPTP name of a placeholder carries its sort; the oracle sees the placeholder under its own name
+        let mut consts: HashMap<String, Val> = HashMap::new();
+        let mut by_name: HashMap<String, Val> = HashMap::new();
+        for ((n, sort), v) in placeholders.iter().zip(pv) {
+            consts.insert(format!("{n}_{}", match sort { fol::Sort::Integer => "i", fol::Sort::Symbol => "s", fol::Sort::General => "g" }), v.clone());
+            consts.insert(format!("@{n}"), v.clone());
+            by_name.insert(n.clone(), v.clone());
+        }
+        aspsem::set_placeholders(by_name);
+        let pv_text = if placeholders.is_empty() { String::new() } else { format!(" with placeholders {:?}", placeholders.iter().map(|p| p.0.clone()).zip(pv.iter().map(|v| v.to_string())).collect::<Vec<_>>()) };
         st.evaluations += interps.len();
-        let cl = |i: &Atoms| Ht { here: i.clone(), there: i.clone(), consts: HashMap::new() };
+        let cl = |i: &Atoms| Ht { here: i.clone(), there: i.clone(), consts: consts.clone() };
         let ref_fw: Vec<bool> = interps.iter().map(|i| { let m = cl(i); fw.iter().any(|p| refutes(p, &dom, &m)) }).collect();
         let ref_bw: Vec<bool> = interps.iter().map(|i| { let m = cl(i); bw.iter().any(|p| refutes(p, &dom, &m)) }).collect();
         // refuting the problem of a lemma only shows that the lemma is false: soundness (a) is about the final problems
         let is_final = |p: &&&ReadProblem| !p.file.contains("outline");
         let fin_fw: Vec<bool> = interps.iter().map(|i| { let m = cl(i); fw.iter().filter(is_final).any(|p| refutes(p, &dom, &m)) }).collect();
         let fin_bw: Vec<bool> = interps.iter().map(|i| { let m = cl(i); bw.iter().filter(is_final).any(|p| refutes(p, &dom, &m)) }).collect();
-        per_flags.insert(flags.join(" "), (ref_fw.clone(), ref_bw.clone(), interps.clone()));
+        flag_fw.extend(ref_fw.iter().cloned());
+        flag_bw.extend(ref_bw.iter().cloned());
 
-        // assumptions: user guide and specification
-        let mut assumptions: Vec<fol::Formula> = ug.formulas().into_iter().filter(|f| f.role == fol::Role::Assumption).map(|f| f.formula).collect();
-        if let Some(s) = &spec { assumptions.extend(s.formulas.iter().filter(|f| f.role == fol::Role::Assumption).map(|f| f.formula.clone())); }
-        let assumed = |i: &Atoms| assumptions.iter().all(|f| cl_sat(f, &dom, &cl(i)));
+        // assumptions: user guide and specification; a forward assumption is available in the forward direction only, a backward
+        // assumption of a specification is ignored by anthem (with a warning), so the corpus contains none
+        let mut assumptions: Vec<(fol::Direction, fol::Formula)> = ug.formulas().into_iter().filter(|f| f.role == fol::Role::Assumption).map(|f| (f.direction, f.formula)).collect();
+        if let Some(s) = &spec { assumptions.extend(s.formulas.iter().filter(|f| f.role == fol::Role::Assumption).map(|f| (f.direction, f.formula.clone()))); }
+        let assumed_dir = |i: &Atoms, dir_forward: bool| assumptions.iter().filter(|(d, _)| match d { fol::Direction::Universal => true, fol::Direction::Forward => dir_forward, fol::Direction::Backward => !dir_forward }).all(|(_, f)| cl_sat(f, &dom, &cl(i)));
 
         // try each admissible reading of the renamed private predicate; the check passes if one of them explains the problems
         let mut complaints: Vec<String> = Vec::new();
@@ -267,14 +300,16 @@ pub fn check_case(c: &Case, flag_sets: &[&[&str]], st: &mut VStats, fails: &mut 
                 let (a_side, a_map, a_priv, b_side, b_map, b_priv) = if dir_forward { (&left_side, lmap, &priv_left, &right_side, rmap, &priv_prog) } else { (&right_side, rmap, &priv_prog, &left_side, lmap, &priv_left) };
                 // public parts the claimed side can produce: over all interpretations of its own vocabulary
                 let b_voc: BTreeSet<Pred> = public.union(b_priv).cloned().collect();
-                let producible: BTreeSet<Atoms> = subsets(&atoms_of(&b_voc)).into_iter().filter(|j| assumed(j) && models(b_side, j, dir_forward, false)).map(|j| restrict(&j, &public)).collect();
+                let assumed = |i: &Atoms| assumed_dir(i, dir_forward);
+                // (the claimed side is held to the universal assumptions only)
+                let producible: BTreeSet<Atoms> = subsets(&atoms_of(&b_voc)).into_iter().filter(|j| assumptions.iter().filter(|(d, _)| *d == fol::Direction::Universal).all(|(_, f)| cl_sat(f, &dom, &cl(j))) && models(b_side, j, dir_forward, false)).map(|j| restrict(&j, &public)).collect();
                 // (a) soundness of refutation, (b) completeness, grouped by the assumed side's view
                 let mut difference_groups: BTreeMap<Atoms, bool> = BTreeMap::new();
                 for (k, i) in interps.iter().enumerate() {
                     let a_view = to_side(i, a_map, a_priv);
                     let is_diff = assumed(i) && models(a_side, &a_view, dir_forward, true) && !producible.contains(&restrict(i, &public));
                     if fin[k] && !is_diff {
-                        local.push(format!("{} problem refuted by {{{}}}, which is no difference in external behaviour (assumptions hold: {}, assumed side satisfied: {}, public part producible by the other side: {})",
+                        local.push(format!("{} problem refuted by {{{}}}{pv_text}, which is no difference in external behaviour (assumptions hold: {}, assumed side satisfied: {}, public part producible by the other side: {})",
                             if dir_forward { "forward" } else { "backward" }, show(i), assumed(i), models(a_side, &a_view, dir_forward, true), producible.contains(&restrict(i, &public))));
                         break;
                     }
@@ -282,13 +317,17 @@ pub fn check_case(c: &Case, flag_sets: &[&[&str]], st: &mut VStats, fails: &mut 
                 }
                 let _ = b_map;
                 if let Some((g, _)) = difference_groups.iter().find(|(_, r)| !**r) {
-                    local.push(format!("difference in external behaviour not refuted by any {} problem: {{{}}} is a model of the assumed side whose public part the other side cannot produce", if dir_forward { "forward" } else { "backward" }, show(g)));
+                    local.push(format!("difference in external behaviour{pv_text} not refuted by any {} problem: {{{}}} is a model of the assumed side whose public part the other side cannot produce", if dir_forward { "forward" } else { "backward" }, show(g)));
                 }
             }
             if local.is_empty() { complaints.clear(); break; }
             complaints = local;
         }
-        for m in complaints.into_iter().take(2) { fails.push(Failure { property: "C02", input: what.clone(), detail: m }); }
+        complaints_all.extend(complaints);
+        }
+        aspsem::set_placeholders(HashMap::new());
+        per_flags.insert(flags.join(" "), (flag_fw, flag_bw, interps.clone()));
+        for m in complaints_all.into_iter().take(2) { fails.push(Failure { property: "C02", input: what.clone(), detail: m }); }
     }
     // C19: flag combinations of the same direction set agree
     let base: Vec<(&String, &(Vec<bool>, Vec<bool>, Vec<Atoms>))> = per_flags.iter().collect();
